@@ -76,6 +76,13 @@ theorem np_step {cfg : Config} {s : St} {last : Last} (h : NP cfg s last) (r : R
   | switchIn => cases hcs
   | switchOut => cases hcs
   | sched => cases hcs
+  | otherEvent pid' tid' t km ip chain =>
+    obtain ⟨_, _, o3, u, _, _, _, _, _, _, _, o4⟩ := obs_otherEvent hinv pid' tid' t km ip chain
+    refine ⟨hsim', o3.trans h.bad, fun a b => ?_⟩
+    rw [o4 a]
+    unfold upd; split
+    · exact h.plain pid' b
+    · exact h.plain a b
   | fork pid' tid' ppid ptid t =>
     obtain ⟨o1, _, _, o4⟩ := obs_fork hinv pid' tid' ppid ptid t
     refine ⟨hsim', o4.trans h.bad, fun a b => ?_⟩
